@@ -6,10 +6,15 @@ use crate::{
     },
     config, Result,
 };
+#[cfg(not(flea1lt_sentinel_rust_verif))]
 use std::sync::{
     atomic::{AtomicU32, Ordering},
     Arc,
 };
+#[cfg(flea1lt_sentinel_rust_verif)]
+use std::sync::{atomic::Ordering, Arc};
+#[cfg(flea1lt_sentinel_rust_verif)]
+use crate::verif::sync::{atomic::AtomicU32};
 
 #[allow(dead_code)]
 #[derive(Debug)]
